@@ -173,6 +173,51 @@ theorem mac_records_disjoint (o o' : Nat) :
   simp only [uRecord, wRecord, rShareRecord, macPrssCalls, macSends, uRecordAdd, wRecordAdd, rRecordAdd]
   omega
 
+/-! ## record ids of `aggregate_values` -/
+
+theorem foldl_add_init (l : List Nat) (a : Nat) : l.foldl (· + ·) a = a + l.foldl (· + ·) 0 := by
+  induction l generalizing a with
+  | nil => simp
+  | cons x r ih => simp only [List.foldl_cons]; rw [ih (a + x), ih (0 + x)]; omega
+
+theorem baseAfter_append (a b : List Nat) (d : Nat) : baseAfter (a ++ b) d = baseAfter a d + baseAfter b d := by
+  unfold baseAfter
+  rw [List.map_append, List.foldl_append, foldl_add_init]
+
+/-- **aggregate_record_ids**: over any sequence of `aggregate_values` calls sharing one `record_ids` array
+(any chunking of the input), the ids used at one depth by an earlier call (`pre ++ [n]`) and by a later call
+(`… ++ [n']`) are different: no `(depth, record id)` pair is ever used twice. -/
+theorem aggregate_record_ids (pre mid : List Nat) (n n' d i i' : Nat)
+    (hi : i < halves n d) (_hi' : i' < halves n' d) :
+    baseAfter pre d + i ≠ baseAfter (pre ++ [n] ++ mid) d + i' := by
+  rw [baseAfter_append, baseAfter_append]
+  have : baseAfter [n] d = halves n d := by simp [baseAfter]
+  omega
+
+theorem aggDepth_le : ∀ fuel d n, n ≤ 2 ^ d → aggDepth fuel n ≤ d := by
+  intro fuel
+  induction fuel with
+  | zero => intro d n _; simp [aggDepth]
+  | succ f ih =>
+    intro d n h
+    unfold aggDepth
+    by_cases h1 : n > 1
+    · cases d with
+      | zero => simp at h; omega
+      | succ d' =>
+        have hp : (2 : Nat) ^ (d' + 1) = 2 * 2 ^ d' := by rw [Nat.pow_succ]; omega
+        have := ih d' ((n + 1) / 2) (by omega)
+        simp [h1]; omega
+    · simp [h1]
+
+/-- the reduction of at most `2^AGGREGATE_DEPTH` rows needs at most `AGGREGATE_DEPTH` levels, so the index into
+the `record_ids` array (`depth = level − 1 < AGGREGATE_DEPTH`) is always in bounds. -/
+theorem aggregate_depth_in_bounds (fuel n : Nat) (h : n ≤ 2 ^ aggregateDepth) : aggDepth fuel n ≤ aggregateDepth :=
+  aggDepth_le fuel aggregateDepth n h
+
+example : aggDepth 64 (2 ^ 24) = 24 ∧ aggDepth 64 (2 ^ 24 + 1) = 25 ∧ halves 5 0 = 2 ∧ halves 5 1 = 1 ∧ halves 5 2 = 1 := by
+  decide
+
 /-! ## never used both ways, never drawn twice (the debug-build detectors of the model) -/
 
 theorem find_set (e : Endpoint) (g : String) (it : Item) : (e.set g it).find g = some it := by
